@@ -141,9 +141,9 @@ def run_m0(c, o):
     zoo.run(pi)
     surfaces = pc._oas_surfaces
     tags = ["rot" if c["rotational"] else "norot"]
-    o.close("m0/sec_forces", forces_of(pc, "aero.aero_states", surfaces), forces_of(pi, "aero.aero_states", surfaces), rtol=1e-10, tags=tags)
+    o.close("m0/sec_forces", forces_of(pc, "aero.aero_states", surfaces), forces_of(pi, "aero.aero_states", surfaces), rtol=1e-8, tags=tags)
     for q in ("CL", "CD", "CM"):
-        o.close("m0/" + q, pc.get_val("aero." + q), pi.get_val("aero." + q), rtol=1e-10, atol=1e-13, tags=tags)
+        o.close("m0/" + q, pc.get_val("aero." + q), pi.get_val("aero." + q), rtol=1e-8, atol=1e-13, tags=tags)
     o.nontrivial = True
 
 
@@ -183,7 +183,7 @@ def run_cont(c, o):
         o.true("cont/halving", max(d1, d2) <= 3.0 * nb + 1e-12, "jump inside the Mach interval [%.3f, %.3f]: half-step increments %.3e, %.3e vs ladder increments %.3e" % (Ms[k], Ms[k + 1], d1, d2, nb))
     x0 = at(0.0)
     x1 = at(1e-8)
-    o.close("cont/M_to_0", x1, x0, rtol=1e-10, atol=1e-300)
+    o.close("cont/M_to_0", x1, x0, rtol=1e-8, atol=1e-300)
     o.nontrivial = True
 
 
